@@ -740,6 +740,10 @@ func goCode(root string, unit string) string {
 			"Actor":    {"SelectLink", "ProfilePic", "Banner"},
 		}, "pub/link.go")
 		emit("pub/post.go, pub/activity.go, pub/actor.go (link numbering and selection)", text, errs)
+	case "update":
+		header("Model.GoSem", "Model.GoSlices", "Model.GoCtl", "Model.GoConv", "Model.Mime", "Generated.GoFeed", "Generated.GoHistory")
+		text, errs := translateUpdate(root)
+		emit("ui/ui.go ((*State).Update)", text, errs)
 	default:
 		b.WriteString("-- unknown unit " + unit + "\n")
 	}
